@@ -32,11 +32,12 @@ func init() {
 }
 
 type c13Case struct {
-	Mode string `json:"mode"` // shared | dialandsend | mixed
-	G    int    `json:"goroutines"`
-	Rep  int    `json:"rep"`
-	Seed int64  `json:"seed"`
-	Auth string `json:"auth,omitempty"` // "" | LOGIN | SCRAM-SHA-256 | PLAIN: every dial-up authenticates
+	Mode  string `json:"mode"` // shared | dialandsend | mixed
+	G     int    `json:"goroutines"`
+	Rep   int    `json:"rep"`
+	Seed  int64  `json:"seed"`
+	Auth  string `json:"auth,omitempty"`  // "" | LOGIN | SCRAM-SHA-256 | PLAIN: every dial-up authenticates
+	SMIME bool   `json:"smime,omitempty"` // about half of the messages are S/MIME signed (one shared certificate value)
 }
 
 type c13Viol struct {
@@ -46,28 +47,32 @@ type c13Viol struct {
 }
 
 type c13Report struct {
-	Case         c13Case   `json:"case"`
-	Viol         []c13Viol `json:"viol"`
-	Messages     int       `json:"messages"`
-	Commits      int       `json:"commits"`
-	Commands     int       `json:"commands"`
-	Connections  int       `json:"connections"`
-	MaxInFlight  int       `json:"max_in_flight"`
-	SumInFlight  int       `json:"sum_in_flight"`
-	CommitOrder  string    `json:"commit_order"`
-	Porcupine    string    `json:"porcupine"`
-	Ops          int       `json:"ops"`
-	Inconclusive []string  `json:"inconclusive,omitempty"`
-	Done         bool      `json:"done"`
+	Case          c13Case   `json:"case"`
+	Viol          []c13Viol `json:"viol"`
+	Messages      int       `json:"messages"`
+	Commits       int       `json:"commits"`
+	SignedCommits int       `json:"signed_commits"`
+	Commands      int       `json:"commands"`
+	Connections   int       `json:"connections"`
+	MaxInFlight   int       `json:"max_in_flight"`
+	SumInFlight   int       `json:"sum_in_flight"`
+	CommitOrder   string    `json:"commit_order"`
+	Porcupine     string    `json:"porcupine"`
+	Ops           int       `json:"ops"`
+	Inconclusive  []string  `json:"inconclusive,omitempty"`
+	Done          bool      `json:"done"`
 }
 
 type c13Msg struct {
-	id     string
-	g, k   int
-	msg    *mail.Msg
-	from   string
-	rcpts  []string
-	shared bool
+	signed  bool
+	keyType string
+	withInt bool
+	id      string
+	g, k    int
+	msg     *mail.Msg
+	from    string
+	rcpts   []string
+	shared  bool
 }
 
 type c13Op struct {
@@ -143,12 +148,19 @@ func c13Run(c c13Case) c13Report {
 			if rng.Intn(3) == 0 {
 				spec.Attach = []gen.FileSpec{{Name: "a.bin", Content: body[:len(body)/4], Source: gen.Pick(rng, []string{"reader", "readseeker", "writer"}), Chunk: 1000}}
 			}
+			if c.SMIME && rng.Intn(2) == 0 {
+				// signed with SignWithTLSCertificate: every signed message of the process shares one *tls.Certificate
+				spec.SMIME, spec.SignVia, spec.WithInt = gen.Pick(rng, []string{"rsa", "ecdsa"}), "tlscert", rng.Intn(2) == 0
+				if spec.Enc == "8bit" {
+					spec.Enc = "quoted-printable"
+				}
+			}
 			m, err := spec.Build(env)
 			if err != nil {
 				add("harness", "build: "+err.Error(), "")
 				return rep
 			}
-			cm := &c13Msg{id: id, g: g, k: k, msg: m, from: spec.From.Addr, rcpts: []string{spec.To[0].Addr, spec.To[1].Addr}}
+			cm := &c13Msg{signed: spec.SMIME != "", keyType: spec.SMIME, withInt: spec.WithInt, id: id, g: g, k: k, msg: m, from: spec.From.Addr, rcpts: []string{spec.To[0].Addr, spec.To[1].Addr}}
 			ms = append(ms, cm)
 			all[id] = cm
 		}
@@ -257,7 +269,20 @@ func c13Run(c c13Case) c13Report {
 				add("commit-unknown-message", fmt.Sprintf("connection %d commit %d carries no known message id (%q)", si, ci, id), ev.Q(cm.Data, 400))
 				continue
 			}
-			if !bytes.Equal(cm.Data, expect[id]) {
+			if m.signed {
+				// outer boundary and signature legitimately differ per render: the signature must verify and the signed
+				// entity must be the one of the message's own rendering
+				rep.SignedCommits++
+				if _, probs := verifySigned(cm.Data, m.withInt, m.keyType); len(hardProblems(probs)) > 0 {
+					add("commit-signature-broken", fmt.Sprintf("signed message %s was committed in a form whose signature does not verify: %v", id, hardProblems(probs)), ev.Q(cm.Data, 600))
+				} else {
+					got, e1 := smimeView(cm.Data)
+					want, e2 := smimeView(expect[id])
+					if e1 != nil || e2 != nil || !bytes.Equal(got, want) {
+						add("commit-content-differs", fmt.Sprintf("signed message %s: header or signed entity differ from its rendering (%v %v)", id, e1, e2), "")
+					}
+				}
+			} else if !bytes.Equal(cm.Data, expect[id]) {
 				d := firstDiff(cm.Data, expect[id])
 				add("commit-content-differs", fmt.Sprintf("message %s committed with content that differs from its rendering at offset %d (%d vs %d bytes)", id, d, len(cm.Data), len(expect[id])), ev.Q(window(cm.Data, d), 200)+" vs "+ev.Q(window(expect[id], d), 200))
 			}
@@ -371,6 +396,9 @@ func c13Child(args []string) int {
 	if len(args) > 4 {
 		c.Auth = args[4]
 	}
+	if len(args) > 5 {
+		c.SMIME = args[5] == "smime"
+	}
 	rep := c13Run(c)
 	b, _ := json.Marshal(rep)
 	fmt.Printf("C13REPORT %s\n", b)
@@ -379,7 +407,7 @@ func c13Child(args []string) int {
 
 func runC13(r *ev.Run, rep *ev.ReplayDoc) ev.Summary {
 	sum := ev.Summary{
-		Rule: "G in {2,4,8,16,32,64} goroutines, each sending a batch of 1-3 distinct messages (unique ids and envelopes, 100 B - 300 KB, some with producers that yield or sleep between chunks) through ONE mail.Client: all via Send on one established connection, all via DialAndSend, and mixed; the reference server adds seeded latency jitter to every reply and reads DATA slowly. Every repetition runs in its own child process built with -race. non-trivial = at least two Sends were in flight at a commit instant; distinct by commit order",
+		Rule: "G in {2,4,8,16,32,64} goroutines, each sending a batch of 1-3 distinct messages (unique ids and envelopes, 100 B - 300 KB, some with producers that yield or sleep between chunks, in every third repetition about half of them S/MIME signed through SignWithTLSCertificate with one shared certificate value) through ONE mail.Client: all via Send on one established connection, all via DialAndSend, and mixed; the reference server adds seeded latency jitter to every reply and reads DATA slowly. Every repetition runs in its own child process built with -race. non-trivial = at least two Sends were in flight at a commit instant; distinct by commit order",
 		Assumptions: []string{
 			"exactly-once, envelope/content pairing and transaction contiguity are judged from the reference server's per-connection logs; expected renderings are produced after all sends returned",
 			"porcupine (v1.3.0) checks that the shared connection's commit log is a linearization of the Send calls w.r.t. an append-only-log model; a checker timeout is inconclusive",
@@ -389,7 +417,7 @@ func runC13(r *ev.Run, rep *ev.ReplayDoc) ev.Summary {
 	}
 	exe, _ := os.Executable()
 	runChild := func(c c13Case) {
-		cmd := exec.Command(exe, "child", "c13", c.Mode, fmt.Sprint(c.G), fmt.Sprint(c.Rep), fmt.Sprint(c.Seed), c.Auth)
+		cmd := exec.Command(exe, "child", "c13", c.Mode, fmt.Sprint(c.G), fmt.Sprint(c.Rep), fmt.Sprint(c.Seed), c.Auth, map[bool]string{true: "smime", false: "plain"}[c.SMIME])
 		cmd.Env = os.Environ()
 		var outb, errb bytes.Buffer
 		cmd.Stdout, cmd.Stderr = &outb, &errb
@@ -444,6 +472,7 @@ func runC13(r *ev.Run, rep *ev.ReplayDoc) ev.Summary {
 		}
 		r.Count("messages_sent", int64(cr.Messages))
 		r.Count("commits_checked", int64(cr.Commits))
+		r.Count("signed_commits_verified", int64(cr.SignedCommits))
 		r.Count("commands_observed", int64(cr.Commands))
 		r.Count("connections", int64(cr.Connections))
 		r.Count("porcupine_operations", int64(cr.Ops))
@@ -485,7 +514,8 @@ func runC13(r *ev.Run, rep *ev.ReplayDoc) ev.Summary {
 				if mode == "shared" && i%2 == 0 {
 					auth = ""
 				}
-				cases = append(cases, c13Case{Mode: mode, G: g, Rep: i, Seed: r.Seed, Auth: auth})
+				// every third repetition has S/MIME signed messages among the others (one certificate value for all)
+				cases = append(cases, c13Case{Mode: mode, G: g, Rep: i, Seed: r.Seed, Auth: auth, SMIME: (i+g/2)%3 == 1})
 			}
 		}
 	}
